@@ -39,6 +39,10 @@ CHECKS = {
          "Finite-state proof per size and rule on the index-canonical quotient model (closed under every next key, hence all histories), transferred to the code by walking the same state graph on real LookupEncoder/LookupDecoder objects: "
          "state and transition counts equal, transition sets equal for small sizes, every real transition judged by the table contract; long random histories for sizes 8..4096.",
          "TLC exhaustive model checking of spec/PyLookup.tla + state-graph comparison on real objects"),
+ "C07": ("model_checking", "6 C07",
+         "spec/Framing.tla enumerates every partition of an N-row sequence into frames (N = 5..8 quick, ..11 thorough; with empty frames); every partition of every TLC-generated row sequence is re-framed by /verif's codec, every second frame carrying metadata, "
+         "and parsed flat and grouped by both integrations against the TLC-computed denotation (one sink per frame, content per frame, metadata visible). Grouped serialization of sink sequences through one shared stream: one frame per non-empty sink, judged by TLC.",
+         "TLC exhaustive enumeration of frame partitions (spec/Framing.tla) replayed into the real parsers; TLC trace judging of grouped serializer output"),
  "C14": ("model_checking", "6 C14",
          "TLC closes PyWriter.Namespace o JellyReader.RdNamespace on slices where declarations evict prefixes (prefix table 1-2); simulated behaviours with declarations are replayed through Stream.namespace_declaration and as bindings on "
          "GenericStatementSink / rdflib Graph / Dataset through stream_frames and Graph.serialize (TRIPLES, QUADS, GRAPHS); wire judged by TLC; order and content of what the reader receives, on/off equivalence of the statements, absence when off, and regeneration are compared.",
